@@ -161,6 +161,12 @@ def _worker(job):
     ctx.canary = canary
     t0 = time.time()
     err = None
+    if isinstance(cfg, dict) and "via" in cfg:
+        # the object under contract is reached as a copy (copy.deepcopy / pickle round trip) of another object, see
+        # drivers/common.copied; under the symbolic front ends the original holds symbols of its own
+        from drivers import common as _DC
+        _DC.VIA[0] = cfg["via"]
+        _DC.SYM_ORIG[0] = cfg.get("sym_orig", True)
     try:
         while True:
             try:
